@@ -9,7 +9,7 @@ from .. import boot, core, api, projgen
 ID = "C10"
 LEVEL = "exploration"
 BUDGET = {"quick": 140, "thorough": 1500}
-EXAMPLES = {"quick": 100, "thorough": 2500}
+EXAMPLES = {"quick": 170, "thorough": 2500}
 RULE = ("cases = generated layouts (1-3 sys.path roots in drawn order, optionally their common parent as a further "
         "root; per node module / regular package / namespace package / module+package clash; names reused across "
         "roots; marker-only files) x 12 import statements per layout over the forms import a.b / import a.b as c / "
